@@ -21,6 +21,9 @@ func runtime_setProfLabel(labels unsafe.Pointer)
 //go:linkname runtime_getProfLabel runtime/pprof.runtime_getProfLabel
 func runtime_getProfLabel() unsafe.Pointer
 
+//go:linkname rtDraws runtime.verifDraws
+func rtDraws() uint64
+
 // label mirrors runtime/pprof.labelMap (= internal/runtime/pprof/label.Set) so
 // that goroutine profiles and tracebacks (GODEBUG=tracebacklabels=1) print the
 // simulated process a goroutine belongs to.
